@@ -18,7 +18,7 @@ ASSUMPTIONS = ["oracle hedmon/oracle/schema_xml.py reads the bundled XML with xm
                "extension words (Zzqext, Qqmore) are not schema terms in any bundled schema"]
 MIN_MONITOR_EVALS = {"same-node": 5000, "forms": 5000, "suffix-verbatim": 2000, "inverse-idempotent": 5000,
                      "bulk-convert": 1000, "generated-schema-node": 500, "entry-of-this-schema": 5000,
-                     "interleaved-versions": 500, "placeholder-child-lookup": 500}
+                     "interleaved-versions": 500, "placeholder-child-lookup": 500, "respelled-object": 1000}
 WATCHDOG_S = {"quick": 900, "thorough": 3600}
 VALUES = ["/3", "/3 s", "/Abc-1", "/XyZ 1", "/#", "/7.5 mV"]
 EXTS = ["/Zzqext", "/Zzqext/Qqmore", "/ZZqExt"]
@@ -128,6 +128,16 @@ def check_node(schema, ns, node, rng, ncases, rec, label, entries, bulk):
                     if hs.get_as_long() != t.long_tag or hs.get_as_short() != t.short_tag:
                         rec.violation("HedString.get_as_long/short disagree with the tag properties", case)
                     bulk.append((text, t.long_tag, t.short_tag))
+                if node.parent is not None and not suffix and rng.random() < 0.06:
+                    # the same tag object re-spelled through its public setter now names another node
+                    rec.mon("respelled-object")
+                    try:
+                        t.tag = ns + node.parent.name
+                        if (t.long_tag != ns + node.parent.path or t.short_tag != ns + node.parent.name
+                                or t.base_tag != node.parent.path or not t.tag_exists_in_schema()):
+                            rec.violation("a tag object re-spelled through its setter still names its former node", case)
+                    except Exception as ex:      # noqa
+                        rec.violation(f"re-spelling a tag object raised {type(ex).__name__}", case)
                 if rng.random() < 0.0005:
                     rec.sample(case)
 
@@ -249,6 +259,19 @@ def run_shard(shard, rec):
         for node in focus + others:
             rec.mon("generated-schema-node")
             check_node(schema, "", node, rng, 2, rec, label, entries, bulk)
+        # column conversion follows the schema that is passed in, also when another schema object of the same
+        # version (the bundled one) converted the same texts earlier in this process
+        import pandas as pd
+        from hed.models import df_util
+        btexts = [ns_t for ns_t in (n.name for n in focus)] + [b[0] for b in bulk[:50]]
+        try:
+            df_util.convert_to_form(pd.Series(list(btexts)), env.schema(shard["base"]), "long_tag")
+            df_util.convert_to_form(pd.Series(list(btexts)), env.schema(shard["base"]), "short_tag")
+        except Exception:  # noqa   (tags unknown to the base schema may raise there; only the history matters)
+            pass
+        from hed.models.hed_tag import HedTag
+        want = [(tx, HedTag(tx, schema).long_tag, HedTag(tx, schema).short_tag) for tx in btexts]
+        check_bulk(schema, want, rec, label)
         rec.count("schema", "generated", 1)
         rec.count("generated-added-nodes", "n", len(added))
 
